@@ -1299,3 +1299,12 @@ Theorem dec_rounds_outside_fragment q :
 Proof.
   intros Hred Hpos Hp. split; [apply parse_print_dec_real, Hpos|apply dec_rounded_neq; assumption].
 Qed.
+
+(* what is read back is always a decimal of at most 50 significant digits *)
+Theorem dec_rounded_shape q :
+  N.pos (Qden q) <> 1 -> exists c e, dec_rounded q = dec_val c e /\ c < pow10N 50.
+Proof.
+  intros Hd. unfold dec_rounded. apply N.eqb_neq in Hd. rewrite Hd.
+  pose proof (dec_div50_bound (Z.to_N (Z.abs (Qnum q))) (N.pos (Qden q))) as Hb.
+  destruct (dec_div50 _ _) as [c e]. exists c, e. split; [reflexivity|exact Hb].
+Qed.
